@@ -880,6 +880,35 @@ where
                 let pool = rayon::ThreadPoolBuilder::new().num_threads(ev.j.max(1) as usize).build().unwrap();
                 ev.r = vec![pool.install(|| a.par_eq(b)) as i64, pool.install(|| b.par_eq(a)) as i64];
             }
+            "serde_roundtrip" => {
+                // table u := deserialize(serialize(table t)) through serde_json values
+                let val = serde_json::to_value(self.tabs[t - 1].as_ref().unwrap()).expect("serialize");
+                let back: Map<K, V> = serde_json::from_value(val).expect("deserialize");
+                drop(self.tabs[ev.u - 1].take());
+                self.tabs[ev.u - 1] = Some(back);
+            }
+            "serde_de" => {
+                // ks = [k1, v1, ...]; n = claimed size hint (-1 none, -2 usize::MAX, -3 2^40); j = position of an input error (-1 none)
+                let items: Vec<(u32, u32)> = ev.ks.chunks(2).map(|p| (p[0] as u32, p[1] as u32)).collect();
+                let hint = match ev.n {
+                    -1 => None,
+                    -2 => Some(usize::MAX),
+                    -3 => Some(1usize << 40),
+                    x => Some(x as usize),
+                };
+                let input = env::MockInput { items, pos: 0, hint, fail_at: if ev.j >= 0 { Some(ev.j as usize) } else { None }, pending_value: None };
+                let res: Result<Map<K, V>, _> = serde::Deserialize::deserialize(env::MockDe(input, true));
+                let maxal = env::with(|e| e.alloc_events.iter().filter(|a| a.0 == 1).map(|a| a.1).max().unwrap_or(0));
+                match res {
+                    Ok(mut m) => {
+                        ev.r = vec![1, m.capacity() as i64, maxal as i64];
+                        m.shrink_to_fit();
+                        drop(self.tabs[t - 1].take());
+                        self.tabs[t - 1] = Some(m);
+                    }
+                    Err(_) => ev.r = vec![0, 0, maxal as i64],
+                }
+            }
             other => panic!("unknown map op {}", other),
         }
     }
